@@ -235,7 +235,7 @@ func hasUnexported(st *types.Struct, n *types.Named, localPrefix string) bool {
 	if n == nil || n.Obj().Pkg() == nil {
 		return false
 	}
-	if strings.HasPrefix(n.Obj().Pkg().Path(), localPrefix) {
+	if strings.HasPrefix(n.Obj().Pkg().Path(), localPrefix) || verifiedDeps[n.Obj().Pkg().Path()] {
 		return false
 	}
 	for i := 0; i < st.NumFields(); i++ {
